@@ -46,12 +46,12 @@ def gen_cases(ctx):
     # (2) sampled pairs one width above the exhaustive bound (and width 4)
     for w in (wx + 1, 4):
         pool = vsa.all_sis(w)
-        for _ in range(ctx.pick(350, 12000)):
+        for _ in range(ctx.pick(1500, 12000)):
             a, b = rng.choice(pool), rng.choice(pool)
             for op in binops:
                 cases.append((op, [a, b], "small"))
     # (3) random intervals at 5..64 bits
-    for _ in range(ctx.pick(160, 5000)):
+    for _ in range(ctx.pick(900, 5000)):
         w = rng.choice(vsa.WIDE_WIDTHS)
         a, b = vsa.rand_si(rng, w), vsa.rand_si(rng, w)
         if rng.random() < 0.3:      # small shift amounts / divisors are the interesting second operands
